@@ -2,30 +2,79 @@ import KrroodVerif.Sexp
 import KrroodVerif.Model.Json
 import KrroodVerif.Drive.JsonIO
 /-!
-C18 driver. Case: `(rt (env …) VALUE)`.
-`model=` : `fromJson Quirks.current env (toJson v)` printed canonically `;tags=` the `__json_type__` entries of `toJson v`
-`spec=`  : the value itself `;tags=` the fully qualified name of the class of every object (C18_roundtrip, C18_tag).
-A value that is not well-formed (`wf`) or an environment that does not list a consulted name is refused: the
-harness only builds values of the property's grammar.
+C18 driver. Cases:
+* `(rt (env …) VALUE)` — VALUE may share sub-values (`(def n V)` / `(ref n)`); the model works on the tree it stands for.
+  `model=` : `fromJson Quirks.current env (toJson env v)` printed canonically `;tags=` the `__json_type__` entries of `toJson env v`
+  `spec=`  : the value itself `;tags=` the fully qualified name of the class of every object (C18_roundtrip, C18_tag).
+  A value that is not well-formed (`wf`) or an environment that does not list a consulted name is refused: the
+  harness only builds values of the property's grammar.
+* `(hist (env …) OP…)` — a registry history (`Json.stepOp` threaded over the operations, starting from the registry the
+  environment describes): `(reg CLASS KEY)`, `(ser VALUE)`, `(rt VALUE)`, `(de CLASS KEY TOKEN)`. One observation per
+  operation, joined by ` / `. `spec=` demands the value (resp. its tags) wherever the value is well-formed in the registry
+  state reached (C18_history) and is `*` (no demand: outside the property's grammar) elsewhere.
 -/
 namespace KrroodVerif.Drive.C18
 open KrroodVerif.Json KrroodVerif.Drive.JsonIO
 
+def showObs : HObs → String
+  | .done => "ok"
+  | .notSerializable => "ClassNotSerializableError"
+  | .serialised j => "ok;tags=" ++ showTags (jsonTags j)
+  | .result r => showResult r
+
+def toOp : HCase → HOp
+  | .register c k => .register c k
+  | .ser v => .ser v
+  | .rt v => .rt v
+  | .de c k t => .de (.obj [(tagKey, .str c.fullName), (k, .str t)])
+
+def hcaseClasses : HCase → List Cls
+  | .register c _ => [c]
+  | .ser v => valClasses v
+  | .rt v => valClasses v
+  | .de c _ _ => [c]
+
+/-- what the property demands of one operation in registry state `R` -/
+def specOp (base : Env) (R : RegState) : HCase → String
+  | .register _ _ => "ok"
+  | .ser v => let env := envWith base R; if wf env v then "ok;tags=" ++ showTags (valueTags v) else "*"
+  | .rt v => let env := envWith base R; if wf env v then showVal v else "*"
+  | .de c k t =>
+    let env := envWith base R
+    if wf env (.ext c t) && env.payloadKey c == k then showVal (.ext c t) else "*"
+
+def runHist (q : Quirks) (base : Env) : List HCase → RegState → List String × List String
+  | [], _ => ([], [])
+  | c :: cs, R =>
+    let (o, R') := stepOp q base R (toOp c)
+    let (ms, ss) := runHist q base cs R'
+    (showObs o :: ms, specOp base R c :: ss)
+
 def run (s : Sexp) : String :=
   match s with
   | .list [.atom "rt", e, v] =>
-    match parseEnv e, parseVal v with
+    match parseEnv e, parseTree v with
     | some d, some v =>
       if !(valClasses v).all (fun c => d.covers c.module c.name) then "error=env-miss"
       else
         let env := d.toEnv
         if !wf env v then "error=not-wf"
         else
-          let j := toJson v
+          let j := toJson env v
           let m := showResult (fromJson Quirks.current env j) ++ ";tags=" ++ showTags (jsonTags j)
           let mf := showResult (fromJson Quirks.none env j) ++ ";tags=" ++ showTags (jsonTags j)
           let sp := showVal v ++ ";tags=" ++ showTags (valueTags v)
           s!"model={m}\tmodel_fixed={mf}\tspec={sp}\ttrig="
+    | _, _ => "error=bad-case"
+  | .list (.atom "hist" :: e :: ops) =>
+    match parseEnv e, ops.mapM parseHCase with
+    | some d, some ops =>
+      if !(ops.flatMap hcaseClasses).all (fun c => d.covers c.module c.name) then "error=env-miss"
+      else
+        let base := d.toEnv
+        let (m, sp) := runHist Quirks.current base ops []
+        let (mf, _) := runHist Quirks.none base ops []
+        s!"model={" / ".intercalate m}\tmodel_fixed={" / ".intercalate mf}\tspec={" / ".intercalate sp}\ttrig="
     | _, _ => "error=bad-case"
   | _ => "error=bad-case"
 end KrroodVerif.Drive.C18
